@@ -680,6 +680,11 @@ func writeEvidence(id, tier string, seed int, cfg PropConfig, results []*OblResu
 		"contract_sources":      used,
 		"bounded":               bounded,
 	}
+	if af, missing, total := anchorFunctionsNotUnderContract(id, funcs); len(af) > 0 {
+		cov["anchor_files"] = af
+		cov["anchor_functions_total"] = total
+		cov["anchor_functions_not_under_contract"] = missing
+	}
 	ev := map[string]any{
 		"property_id": id,
 		"tier":        tier,
